@@ -21,8 +21,10 @@ use std::rc::Rc;
 use std::time::Duration;
 use surf_n_term::common::verif_clock;
 use surf_n_term::encoder::{Encoder, TTYEncoder};
+use surf_n_term::image::{DummyImageHandler, ImageHandlerKind};
 use surf_n_term::{
-    DecMode, Error, Face, KeyName, Position, SystemTerminal, Terminal, TerminalCommand, TerminalEvent, TerminalWaker,
+    DecMode, Error, Face, Image, ImageHandler, KeyName, KittyImageHandler, Position, Shape, SixelImageHandler, Size, SystemTerminal, Terminal,
+    TerminalCommand, TerminalEvent, TerminalWaker, RGBA,
 };
 
 mod full;
@@ -1607,6 +1609,13 @@ fn session(ctx: &Ctx, kernel: &K) -> WorldResult {
     let ops = if clean_start { 1 + kernel.borrow_mut().src.draw(max_ops) } else { 0 };
     let mut owed_wake = false;
     let mut hid_cursor = false;
+    let mut image_pool: Vec<Image> = Vec::new();
+    let mut image_twin: Box<dyn ImageHandler> = match app.term.as_mut().unwrap().image_handler().kind() {
+        ImageHandlerKind::Kitty => Box::new(KittyImageHandler::new()),
+        // (the pictures are opaque: the background colour detection found does not show)
+        ImageHandlerKind::Sixel => Box::new(SixelImageHandler::new(None)),
+        ImageHandlerKind::Dummy => Box::new(DummyImageHandler),
+    };
     let mut typed_total = 0usize;
     for _ in 0..ops {
         if app.failed || app.blocked {
@@ -1644,7 +1653,27 @@ fn session(ctx: &Ctx, kernel: &K) -> WorldResult {
                 // execute command
                 let cmd = {
                     let mut k = kernel.borrow_mut();
-                    match k.src.draw(12) {
+                    match k.src.draw(14) {
+                        12 | 13 => {
+                            // image commands go through the terminal's image handler into the same
+                            // queue (values 12 and 13 were added last: older tapes read as before)
+                            let which = k.src.draw(3) as usize;
+                            let pos = Position::new(k.src.draw(4) as usize, k.src.draw(4) as usize * 3);
+                            let erase = k.src.chance(1, 3);
+                            if image_pool.is_empty() {
+                                // (12 x 12: one transmission chunk, 40 x 40: three, 6 x 2: a single sixel band)
+                                for (seed, h, w) in [(7u8, 12usize, 12usize), (90, 40, 40), (201, 6, 2)] {
+                                    let data: Vec<RGBA> = (0..h * w).map(|i| RGBA::new(seed.wrapping_add((i / w * 31) as u8), (i % w * 17) as u8 ^ seed, (i % 7 * 36) as u8, 255)).collect();
+                                    image_pool.push(Image::from_parts(data.into(), Shape::from(Size::new(h, w))));
+                                }
+                            }
+                            k.src.probe("image-command-executed-on-the-terminal");
+                            if erase {
+                                TerminalCommand::ImageErase(image_pool[which].clone(), if k.src.chance(1, 4) { None } else { Some(pos) })
+                            } else {
+                                TerminalCommand::Image(image_pool[which].clone(), pos)
+                            }
+                        }
                         0 => TerminalCommand::Char('x'),
                         1 => TerminalCommand::CursorTo(Position::new(k.src.draw(50) as usize, k.src.draw(200) as usize)),
                         2 => TerminalCommand::Face(Face::default()),
@@ -1680,7 +1709,21 @@ fn session(ctx: &Ctx, kernel: &K) -> WorldResult {
                 // reference is a fresh encoder per command (none of these commands touches the
                 // only state an encoder legitimately keeps, the keyboard level)
                 let mut bytes = Vec::new();
-                let _ = TTYEncoder::new(caps.clone()).encode(&mut bytes, cmd.clone());
+                match &cmd {
+                    // the reference for image commands is a second handler of the kind the terminal
+                    // chose, given the same draws and erases in the same order (what a handler emits
+                    // depends on what it has transmitted before; the terminal emulator of this world
+                    // never reports a graphics error, so nothing else reaches the terminal's handler)
+                    TerminalCommand::Image(img, pos) => {
+                        let _ = image_twin.draw(&mut bytes, img, *pos);
+                    }
+                    TerminalCommand::ImageErase(img, pos) => {
+                        let _ = image_twin.erase(&mut bytes, img, *pos);
+                    }
+                    _ => {
+                        let _ = TTYEncoder::new(caps.clone()).encode(&mut bytes, cmd.clone());
+                    }
+                }
                 app.history.on_write_bytes(bytes.len());
                 app.expected.extend_from_slice(&bytes);
                 let res = app.term.as_mut().unwrap().execute(cmd.clone());
